@@ -583,6 +583,69 @@ func runCsvRT(args []string) (result string) {
 			}
 		}
 	}
+	// other row shapes: only strings (a row whose fields are all empty is still a row) and headers that differ in letter case only
+	{
+		type strRow struct {
+			A, B, C string
+		}
+		type caseRow struct {
+			Open float64
+			OPEN float64 `header:"OPEN"`
+			Adj  string  `header:"Adj Close"`
+			Adj2 string  `header:"adj close"`
+		}
+		srows := make([]*strRow, n+2)
+		for i := range srows {
+			srows[i] = &strRow{nastyString(r), nastyString(r), nastyString(r)}
+			if i%3 == 1 {
+				srows[i] = &strRow{}
+			}
+		}
+		sf := filepath.Join(dir, "s.csv")
+		sc, _ := helper.NewCsv[strRow](true)
+		sc.Logger = quiet
+		if err := sc.WriteToFile(sf, helper.SliceToChan(srows)); err != nil {
+			return "ERR write-strings " + err.Error()
+		}
+		sch, err := sc.ReadFromFile(sf)
+		if err != nil {
+			return "ERR read-strings " + err.Error()
+		}
+		sg := helper.ChanToSlice(sch)
+		if len(sg) != len(srows) {
+			return fmt.Sprintf("diff string-rows count %d != %d", len(sg), len(srows))
+		}
+		for i := range srows {
+			w, g := *srows[i], *sg[i]
+			fix := func(x string) string { return strings.ReplaceAll(x, "\r\n", "\n") }
+			if fix(w.A) != fix(g.A) || fix(w.B) != fix(g.B) || fix(w.C) != fix(g.C) {
+				return fmt.Sprintf("diff string-row %d %q != %q", i, g, w)
+			}
+		}
+		crows := make([]*caseRow, n+1)
+		for i := range crows {
+			crows[i] = &caseRow{float64(i) + 1.5, float64(i) + 2.5, fmt.Sprintf("a%d", i), fmt.Sprintf("b%d", i)}
+		}
+		cf := filepath.Join(dir, "c.csv")
+		cc, _ := helper.NewCsv[caseRow](true)
+		cc.Logger = quiet
+		if err := cc.WriteToFile(cf, helper.SliceToChan(crows)); err != nil {
+			return "ERR write-case " + err.Error()
+		}
+		cch, err := cc.ReadFromFile(cf)
+		if err != nil {
+			return "ERR read-case " + err.Error()
+		}
+		cg := helper.ChanToSlice(cch)
+		if len(cg) != len(crows) {
+			return fmt.Sprintf("diff case-rows count %d != %d", len(cg), len(crows))
+		}
+		for i := range crows {
+			if *cg[i] != *crows[i] {
+				return fmt.Sprintf("diff case-row %d %v != %v", i, *cg[i], *crows[i])
+			}
+		}
+	}
 	// … and a narrower file (the column "I" is absent): a reader that has seen wider headers before must leave the field at zero
 	{
 		raw, _ := os.ReadFile(file2)
@@ -1081,11 +1144,55 @@ func runJSONBad(args []string) string {
 		return "ERR parse"
 	}
 	return withTimeout(func() string {
-		n := 0
-		for range helper.JSONToChanWithLogger[jsonRow](bytes.NewReader(raw), quiet) {
-			n++
+		var got []jsonRow
+		for v := range helper.JSONToChanWithLogger[jsonRow](bytes.NewReader(raw), quiet) {
+			got = append(got, v)
 		}
-		return fmt.Sprintf("ok %d", n)
+		// oracle: the array decoded element by element, each into a fresh value, up to the first element that does not decode
+		var want []jsonRow
+		dec := json.NewDecoder(bytes.NewReader(raw))
+		if t, err := dec.Token(); err == nil && t == json.Delim('[') {
+			for dec.More() {
+				var v jsonRow
+				if err := dec.Decode(&v); err != nil {
+					break
+				}
+				want = append(want, v)
+			}
+		}
+		if len(got) != len(want) {
+			return fmt.Sprintf("ok diff records=%d well-formed-prefix=%d", len(got), len(want))
+		}
+		for i := range want {
+			if got[i] != want[i] {
+				return fmt.Sprintf("ok diff record=%d got=%v want=%v", i, got[i], want[i])
+			}
+		}
+		// the same document as a stream of maps and of slices-of-anything: every delivered element is its own value
+		var gotM []map[string]any
+		for v := range helper.JSONToChanWithLogger[map[string]any](bytes.NewReader(raw), quiet) {
+			gotM = append(gotM, v)
+		}
+		var wantM []map[string]any
+		dec = json.NewDecoder(bytes.NewReader(raw))
+		if t, err := dec.Token(); err == nil && t == json.Delim('[') {
+			for dec.More() {
+				var v map[string]any
+				if err := dec.Decode(&v); err != nil {
+					break
+				}
+				wantM = append(wantM, v)
+			}
+		}
+		if len(gotM) != len(wantM) {
+			return fmt.Sprintf("ok diff map-records=%d well-formed-prefix=%d", len(gotM), len(wantM))
+		}
+		for i := range wantM {
+			if !reflect.DeepEqual(gotM[i], wantM[i]) {
+				return fmt.Sprintf("ok diff map-record=%d got=%v want=%v", i, gotM[i], wantM[i])
+			}
+		}
+		return fmt.Sprintf("ok %d", len(got))
 	})
 }
 
@@ -1114,7 +1221,19 @@ func runTiingo(args []string) string {
 			for range c {
 				n++
 			}
-			out = fmt.Sprintf("since=ok:%d", n)
+			// oracle: elements of the well-formed prefix, each decoded into a fresh value (unknown members are ignored, as encoding/json does)
+			want := 0
+			dec := json.NewDecoder(bytes.NewReader(body))
+			if t, err := dec.Token(); err == nil && t == json.Delim('[') {
+				for dec.More() {
+					var v asset.TiingoEndOfDay
+					if err := dec.Decode(&v); err != nil {
+						break
+					}
+					want++
+				}
+			}
+			out = fmt.Sprintf("since=ok:%d want=%d", n, want)
 		}
 		_, err = repo.LastDate("x")
 		if err != nil {
